@@ -22,7 +22,7 @@ CLAIMED = {
          "Every boolean operation executed by the workload is judged at ~120 points against the set combination of the operands under their own rules. Held-on-observed; sub-band-width defects are invisible.",
          "Trusts the winding-number oracle (ref/pathgeom.py) and its 0.4% exclusion band; PathOpsError counts as rejected.", "3/C13"),
  "C18": ("runtime monitors on SVGShape.might_paint, SVGPath.remove_empty_subpaths (in the context of the whole path) and SVG.remove_unpainted_shapes/remove_empty_subpaths on generated documents, judged against a three-valued reference ground truth (interior disc under the fill rule / stroked segment of positive length)",
-         "Every might_paint answer and every pruning step executed by the workload is compared with an independent ground truth; only a False on a definitely-painting shape (or a changed rendering after pruning) is a violation, over-approximation is permitted. Held-on-observed.",
+         "Every might_paint answer and every pruning step executed by the workload is compared with an independent ground truth; only a False on a definitely-painting shape (or a changed rendering after pruning) is a violation, over-approximation is permitted. Workload includes outlines at full float precision (as after a transform). Held-on-observed.",
          "Trusts ref/pathgeom.py winding numbers and the 0.5% clearance rule; sub-clearance slivers are 'unknown' and not judged.", "3/C18"),
  "C20": ("runtime monitor on svg_reuse.affine_between: every reported transform is applied exactly to the first outline (reference interpretation) and compared command for command with the second within the tolerance; completeness for exact translations and identity for identical shapes",
          "Every call made by the workload (exact images under 7 transform families, identical pairs, unrelated pairs, near-miss pairs 1.05-3x tolerance off, structure changes, basic shapes with arcs) is judged. Held-on-observed.",
@@ -34,9 +34,9 @@ CLAIMED = {
          "Each conversion is judged at ~250 points; counters prove that clips decided thousands of retained points and that rule-sensitive (nonzero != evenodd) points were present. Held-on-observed.",
          "Trusts ref/render.py; clip-rule inheritance, transform+clip-path on one clipPath and clipPathUnits are not generated (scope decisions).", "3/C03"),
  "C04": ("conversion monitor with a three-valued reference model of the ideal SVG stroke region (evaluated in the shape's local coordinate system: perpendicular foot inside an on-dash with margins, miter/cap reach for 'definitely outside', engine arclength-drift margin); composited colours of source and output compared at retained points; deviations reproduced by a direct skia-pathops stroke at tight curvature are attributed to the engine (known finding)",
-         "Each conversion of a generated stroked document is judged at ~250 points, of which the definitely-inside/outside ones are retained. Held-on-observed; caps, joins and dash ends have uncertain zones of width ~0.8 where nothing is claimed.",
+         "Each conversion of a generated stroked document is judged at ~250 points, of which the definitely-inside/outside ones are retained. The region model knows join shapes (round: outer sector, bevel: triangle, miter: within the limit) and cap shapes; dash ends, the seam of closed dashed subpaths and ties at path ends have uncertain zones of width ~0.8 where nothing is claimed. Feature floors are counted on judged documents. Held-on-observed.",
          "Trusts ref/stroke.py (delta 0.4 local units + band). Scope as stated: own opacity 1 or a single visible piece.", "3/C04"),
- "C05": ("conversion monitor comparing the composited RGBA (reference cascade + group-opacity compositing) of source and output at retained points; known-finding classes are recognised by simulating their mechanism in the reference model and requiring the output to match the simulation everywhere sampled",
+ "C05": ("conversion monitor comparing the composited RGBA (reference cascade + group-opacity compositing) of source and output at retained points; plus one structural clause (no output path keeps a separate fill-/stroke-opacity); known-finding classes are recognised by simulating their mechanism in the reference model and requiring the output to match the simulation everywhere sampled",
          "Each conversion of a generated cascade document (attributes, styles, both; root/group/use/shape level; translucent overlapping groups) is judged at ~250 points within 4e-3. Held-on-observed.",
          "Trusts ref/cascade.py and the compositing in ref/render.py; inherit/currentColor not generated.", "3/C05"),
  "C06": ("conversion monitor comparing the colour the reference gradient model assigns in the source with the colour of the converted document at retained interior points; output gradients checked for self-containment",
@@ -48,13 +48,13 @@ CLAIMED = {
  "C07": ("conversion monitor over recorded histories out1=convert(doc), out2=convert(out1), out3=convert(out2): byte equality and empty checkpicosvg; known mechanisms (late pruning, defs insertion order) recognised by predicates over the recorded pipeline stage and the diff",
          "Generated mixed and cleanup-ordering documents and the tests/ corpus at ndigits 0,1,3,6 are converted three times. Held-on-observed.",
          "Byte comparison of SVG.tostring(); first-pass exceptions are not judged.", "3/C07"),
- "C08": ("conversion monitor: ids unique, every url(#) resolves to a gradient in defs, every gradient used - checked on each converted document from sharing-heavy generated sources; stage recorder attributes orphaned gradients to late pruning",
+ "C08": ("conversion monitor: ids unique, every url(#) resolves to a gradient in defs, every gradient used - checked on each converted document from sharing-heavy generated sources (a stop at the library's own final gate with "reuses id" on a source with unique ids counts as an introduced duplicate); stage recorder attributes orphaned gradients to late pruning",
          "Documents with shared ids, many instances, stroked id'd shapes, shared gradients and colliding generated names are converted and their reference graph checked. Held-on-observed.",
          "Only sources whose references resolve are generated.", "3/C08"),
  "C14": ("differential conversion monitor over pairs (D, N(D)) with generated noise insertion at arbitrary tree positions and noise removal on real files; outputs compared by a canonical form that abstracts gradient ids (by content), defs order and 3e-5 relative numeric slack; both-raise counts as equal",
          "Each pair is converted by the real code and compared. Held-on-observed.",
          "Trusts ref/xmlcanon.equivalent; numeric slack widened from 1.5e-6 to 3e-5 because rounding order (not noise handling) legitimately differs, amplified by bounding-box scales (Corrections log).", "3/C14"),
- "C19": ("runtime monitors on SVG.clip_to_viewbox (rendering of input vs output by the reference evaluator: unchanged inside, empty outside, band around shape edges and the viewBox border) and on SVGShape/SVG.bounding_box (analytic extrema: containment and tightness on all four sides)",
+ "C19": ("runtime monitors on SVG.clip_to_viewbox (rendering of input vs output by the reference evaluator: unchanged inside, empty outside, band around shape edges and the viewBox border) on SVGShape/SVG.bounding_box (analytic extrema: containment and tightness on all four sides) and on Rect.intersection/Rect.union (interval arithmetic); wrong clip results are attributed to the engine only if a direct skia-pathops call reproduces them at the witness point",
          "picosvg documents produced by converting generated sources with random viewBox origins/sizes are clipped and judged at ~270 points incl. border/corner-biased ones; boxes of thousands of curved shapes are judged. Held-on-observed.",
          "Trusts ref/render.py and ref/pathgeom.tight_bbox; slack 3e-5*(1+|coord|) for Skia float32.", "3/C19"),
  "C16": ("offline checker over an append-only event log written by child interpreters: (hash seed, batch, position, document, options) -> sha256(output)|exception; documents converted alone in fresh processes under 5 PYTHONHASHSEED values and in long-lived processes in random batch permutations with duplicates; every (document, options) group must have exactly one outcome",
@@ -63,7 +63,7 @@ CLAIMED = {
  "C17": ("one fresh interpreter per adversarial document under sys.monitoring logical step counting (PY_START + backward JUMP in picosvg code) with a budget linear in the reference-expanded size, under strace -f -e trace=openat,connect with planted canary files/addresses, plus a wall-clock backstop whose firing alone is inconclusive; returned documents validated against the C01 grammar; per-class reach floors from call counts",
          "Cyclic use/clip-path/gradient references (incl. chains leading into cycles), dangling references, malformed numbers, unsupported elements, deep nesting, wide acyclic use DAGs and DOCTYPE/entity attacks are each run to an outcome in {returned, raised, budget, killed}. Bounded-progress restatement of liveness; held-on-observed.",
          "Liveness restated as steps <= 60000*(expanded elements+20)+4e6; trusts strace for file/socket visibility.", "3/C17"),
- "C15": ("history + executable model: each operation history is run on live objects with no observation in between and compared with a shadow run that serialises and re-parses before every step (canonical XML, exception step/type); copy-mode steps are checked for receiver immutability on freshly re-executed runs; in-place steps must return the receiver; divergences are attributed to the shortest diverging prefix",
+ "C15": ("history + executable model: each operation history is run on live objects with no observation in between and compared with a shadow run that serialises and re-parses before every step and applies the in-place form of each step (canonical XML, exception step/type); copy-mode steps are checked for receiver immutability on freshly re-executed runs; in-place steps must return the receiver; divergences are attributed to the shortest diverging prefix",
          "All histories of length <= 2 over 51 steps on six documents (quick), all of length 3 on two documents plus random histories of length 4-8 on the corpus (thorough). Exhaustive on the enumerated sub-space, held-on-observed beyond.",
          "The model is fromstring(tostring()) between steps; canonical XML = infoset equality.", "3/C15"),
 }
